@@ -221,8 +221,16 @@ def linearize(term, table=None):
 
 
 def prove_lin(name, goal, hyps=(), timeout_ms=None, **extra):
-    """try the linearised generalisation first (QF_LRA, instant); fall back to the full non-linear query"""
+    """try the linearised generalisation first (QF_LRA, instant) -- without, then with the hypotheses; fall back to the
+    full non-linear query"""
     table = {}
+    try:
+        g0 = linearize(goal, table)
+        status, backend, secs, model = check(g0, [], 10000, want_model=False, use_cvc5=False)
+        if status == 'proved':
+            return record(name, 'proved', 'z3(linearised generalisation, no hypotheses)', secs, None, 'vc', **extra)
+    except z3.Z3Exception:
+        pass
     try:
         g2 = linearize(goal, table)
         h2 = [linearize(h, table) for h in hyps]
